@@ -280,6 +280,14 @@ class ConstSeq:
         return f'ConstSeq{self.items}'
 
 
+class ZipV:
+    """zip(l1, ..., ln) of heap lists, not yet consumed: a sequence of length min(len li) whose element i is the tuple
+    (l1[i], ..., ln[i]); only iterated (for-loop with invariant, comprehension, quantifier), read in the current heap"""
+
+    def __init__(self, lists):
+        self.lists = list(lists)
+
+
 class ValuesView:
     def __init__(self, d, what):
         self.d, self.what = d, what   # what in values/keys/items
